@@ -16,7 +16,9 @@ F = CFGF
 
 N3 = [Opt('str', b'z', 0, b'deep-default'), Opt('strl', b'zl', 0, b'{d1, "d 2"}'), Opt('int', b'q', 0, 3)]
 N2 = [Opt('int', b'a', 0, 11), Opt('str', b's', 0, b'sub-default'), Opt('intl', b'l', 0, b'{5, 6}'),
-      Opt('sec', b'n', F['MULTI'] | F['TITLE'], None, N3), Opt('flt', b'f', 0, 2.5), Opt('bool', b'b', 0, 1)]
+      Opt('sec', b'n', F['MULTI'] | F['TITLE'], None, N3), Opt('flt', b'f', 0, 2.5), Opt('bool', b'b', 0, 1),
+      # plain sections nested in every instance (created with it, two levels)
+      Opt('sec', b'pl', 0, None, [Opt('int', b'z', 0, 4), Opt('sec', b'pp', 0, None, [Opt('int', b'y', 0, 5)])])]
 SCHEMA = [Opt('int', b'i', 0, 7), Opt('str', b's', 0, b'top-default'), Opt('strl', b'sl', 0, b'{x, "y z"}'),
           Opt('sec', b'm', F['MULTI'], None, N2), Opt('sec', b't', F['MULTI'] | F['TITLE'], None, N2),
           Opt('sec', b'one', 0, None, N2), Opt('sec', b'kv', F['KEYSTRVAL'], None, []), Opt('booll', b'bl', 0, b'{true}'),
@@ -44,9 +46,29 @@ def ctx(cmds, c):
 
 
 
+NEST_OUT = [Opt('int', b'a', 0, 0), Opt('int', b'b', 0, 0), Opt('int', b'c', 0, 0), Opt('strl', b'names', 0, None),
+            Opt('sec', b'peer', F['MULTI'], None, [Opt('int', b'p', 0, 0)]), Opt('func', b'include', func='include'), Opt('func', b'load', func='nest:1')]
+NEST_IN = [Opt('int', b'x', 0, 0), Opt('func', b'include', func='include')]
+
+
 def generate(rng, tier):
     r = rng.fork('C16')
     n = 0
+    # a second context is parsed into from a callback while the first is inside an included file (two levels too):
+    # the first context ends up as it does alone
+    for inner in (b'x = 5\n', b'x = = 5\n', b'include("in2.conf")\n', b''):
+        for deep in (1, 2):
+            body = b'a = 1\nnames += {n1}\npeer { p = 1 }\nload(\'' + inner + b'\')\nb = 2\nnames += {n2}\npeer { p = 2 }\n'
+            lines = ['schema 0 ' + gen.schema_sexpr(NEST_OUT), 'schema 1 ' + gen.schema_sexpr(NEST_IN), 'init 0 0 0', 'init 1 1 0',
+                     'file %s file %s' % (hx(b'in2.conf'), hx(b'x = 7\n')),
+                     'file %s file %s' % (hx(b'inc.conf'), hx(body if deep == 1 else b'include("incb.conf")\nnames += {n3}\n')),
+                     'file %s file %s' % (hx(b'incb.conf'), hx(body)),
+                     'parse_buf 0 ' + hx(b'include("inc.conf")\nc = 3\n')]
+            k = len(lines)
+            lines += ['getv 0 int %s 0' % hx(b'a'), 'getv 0 int %s 0' % hx(b'b'), 'getv 0 int %s 0' % hx(b'c'), 'size 0 ' + hx(b'names'), 'size 0 ' + hx(b'peer')]
+            n += 1
+            yield Scn('nestinc%d' % n, lines, {'class': 'nested-in-include', 'group': 'ni%d' % n, 'role': 'only', 'big': True, 'k': k,
+                                              'want': ['v=1 ', 'v=2 ', 'v=3 ', 'n=%d' % (2 if deep == 1 else 3), 'n=2'], 'impl_only': True})
     # poisoned vs clean
     for flags in (0, F['COMMENTS'], F['NOCASE']):
         for poisoned in (False, True):
@@ -138,6 +160,13 @@ def oracle(scn, il):
         if marks != 1:
             return [('print-callback-spread', '%s: a print callback installed by path shows %d times in the print-out (once expected: first instance only):\n%s' % (
                 scn.id, marks, text.decode('latin-1')[:900]))]
+    if scn.meta['class'] == 'nested-in-include':
+        k = scn.meta['k']
+        for j, w in enumerate(scn.meta['want']):
+            if k + j >= len(il) - 1 or w not in il[k + j] + ' ':
+                return [('nested-parse-disturbs', '%s: after a parse into another context started from inside an included file, `%s` answers %s (alone: %s)' % (
+                    scn.id, scn.lines[k + j][:50], il[k + j][:80] if k + j < len(il) else '-', w))]
+        return []
     for i, l in enumerate(scn.lines):
         want = WORK_EXPECT.get(l.split(' ', 2)[2] if l.count(' ') >= 2 else '')
         if want and i < len(il) - 1 and (want + ' ') not in il[i]:
@@ -156,8 +185,13 @@ def oracle(scn, il):
     return out
 
 
-def check_instances(c, schema, where):
+def check_instances(c, schema, where, rootflags=None):
     bad = []
+    # every section, whenever and however deep it was created, carries the settings of its context
+    if rootflags is None:
+        rootflags = c.flags
+    elif (c.flags | F['KEYSTRVAL']) != (rootflags | F['KEYSTRVAL']):
+        bad.append('%s has context flags %d, its context %d' % (where.decode('latin-1'), c.flags, rootflags))
     names = [o.name for o in c.opts]
     for so in schema:
         if so.name not in names:
@@ -169,7 +203,7 @@ def check_instances(c, schema, where):
             bad.append('%s|%s has kind %s, declared %s' % (where.decode('latin-1'), so.name.decode(), o.kind, so.kind))
         if so.kind == 'sec':
             for k, sub in enumerate(o.vals):
-                bad += check_instances(sub, so.sub, where + b'|' + so.name + b'=%d' % k)
+                bad += check_instances(sub, so.sub, where + b'|' + so.name + b'=%d' % k, rootflags)
     return bad
 
 
